@@ -20,7 +20,7 @@ fn churn(n: usize) -> String {
     )
 }
 
-pub const TEMPLATE_COUNT: usize = 20;
+pub const TEMPLATE_COUNT: usize = 21;
 
 pub fn template(rng: &mut Rng, which: usize) -> String {
     let n = 5 + rng.below(60) as usize;
@@ -164,6 +164,18 @@ pub fn template(rng: &mut Rng, which: usize) -> String {
              (deep {m} 0) (define (deep n acc) 'gone) {} (define n4 0)
              (if (< n4 1) (begin (set! n4 (+ n4 1)) (k4 1000)) 'done) n4",
             churn(10 + n)
+        ),
+        // constants reachable ONLY through the bytecode of a long-lived procedure, in every operand position the
+        // compiler uses for a heap constant: quoted data (MOV-immediate), and the constant tail of a DOTTED
+        // quasiquote template (PUSH-immediate): strings, symbols, vectors, lists
+        20 => format!(
+            "(define (tag x) (quasiquote ((unquote x) . \"unit\")))
+             (define (tag2 x) (quasiquote ((unquote x) quantity . millifurlong)))
+             (define (tag3 x) (quasiquote ((unquote x) . #(\"a\" \"b\"))))
+             (define (tag4 x) (list x (quote (k {n} \"s\")) (quote #(1 2)) \"lit\"))
+             (tag 1) (tag2 1) (tag3 1) (tag4 1) {}
+             (tag 2) (tag2 2) (eq? (cdr (cdr (tag2 3))) 'millifurlong) (tag3 2) (tag4 2) {} (tag {m}) (tag3 {m}) (tag4 {m})",
+            churn(20 + n), churn(10 + m)
         ),
         // mixed, with continuation captured inside map and re-entered once
         _ => format!(
